@@ -647,8 +647,11 @@ bool url::set_host_or_hostname(const std::string_view input) {
       // Set url's host to host, buffer to the empty string, and state to port
       // state.
       std::string_view port_buffer = new_host.substr(location + 1);
+      // An invalid port leaves the new host in place; a result that exceeds the
+      // maximum length must fail the whole setter, so the size is checked once,
+      // below, on the final result.
       if (!port_buffer.empty()) {
-        set_port(port_buffer);
+        set_port_impl(port_buffer, false);
       }
       return check_url_size();
     }
@@ -748,6 +751,11 @@ bool url::set_password(const std::string_view input) {
 }
 
 bool url::set_port(const std::string_view input) {
+  return set_port_impl(input, true);
+}
+
+bool url::set_port_impl(const std::string_view input,
+                        const bool check_max_length) {
   if (cannot_have_credentials_or_port()) {
     return false;
   }
@@ -779,7 +787,7 @@ bool url::set_port(const std::string_view input) {
   std::optional<uint16_t> previous_port = port;
   parse_port(digits_to_parse);
   if (is_valid) {
-    if (get_href_size() > ada::get_max_input_length()) {
+    if (check_max_length && get_href_size() > ada::get_max_input_length()) {
       port = std::move(previous_port);
       return false;
     }
